@@ -3,3 +3,5 @@ open GoMail.Props.C11
 #print axioms render_preserves_content
 #print axioms file_body_encoding_ignores_cache
 #print axioms cached_boundary_reused
+#print axioms state_is_fixpoint
+#print axioms second_render_equals_first
